@@ -206,6 +206,12 @@ fn classify(class: &str, src: &str, opts: &FormatOptions) -> Option<String> {
         if toks.windows(2).any(|w| matches!(w[0], T::Dot) && matches!(w[1], T::StringStart { .. })) {
             return Some("quoted-access-in-chain".into());
         }
+        // a single-line comment directly before the closing bracket of a group broken over lines
+        if matches!(class, "not-idempotent" | "output-does-not-compile" | "output-does-not-parse" | "instructions-changed" | "constants-changed")
+            && toks.windows(3).any(|w| matches!(w[0], T::CommentSingle) && matches!(w[1], T::NewLine) && matches!(w[2], T::RoundClose | T::SquareClose | T::CurlyClose))
+        {
+            return Some(format!("comment-before-closing-bracket:{class}"));
+        }
         // comment line, then a line that starts with a binary operator
         if toks.windows(3).any(|w| matches!(w[0], T::CommentSingle | T::CommentMulti) && matches!(w[1], T::NewLine) && matches!(w[2], T::Add | T::Subtract | T::Multiply | T::Divide | T::Remainder | T::And | T::Or)) {
             return Some("comment-before-operator-line".into());
@@ -356,6 +362,31 @@ pub fn comment_insertions() -> Vec<String> {
                 if c == ' ' && k > indent.len() {
                     out.push(with_skip(&format!("{} #- unit -# {} # trailing", &line[..k], &line[k + 1..])));
                     out.push(with_skip(&format!("{}   #- unit -# {}", &line[..k], &line[k + 1..])));
+                }
+            }
+        }
+    }
+    // bracketed groups broken over lines, with a single-line comment after any element (so also
+    // directly before the closing bracket), and code that continues after the closing bracket
+    let groups: [(&str, &[&str], &str); 7] = [
+        ("x = (", &["1 +", "2"], ")"),
+        ("x = [", &["1,", "2"], "]"),
+        ("x = (", &["1,", "2"], ")"),
+        ("x = {", &["a: 1,", "b: 2"], "}"),
+        ("x = f(", &["1,", "2"], ")"),
+        ("x = max(", &["[1, 2][", "0"], "])"),
+        ("print '{(", &["1 +", "2"], ")}'"),
+    ];
+    for (open, elems, close) in groups {
+        for tail in ["", " * 3", ".size() + 1", ", 4"] {
+            for commented in 0..=elems.len() {
+                for closing_indent in ["", "  "] {
+                    let mut t = format!("f = |a, b| a\n{open}\n");
+                    for (i, e) in elems.iter().enumerate() {
+                        t.push_str(&format!("  {e}{}\n", if i + 1 == commented { " # c" } else { "" }));
+                    }
+                    t.push_str(&format!("{closing_indent}{close}{tail}\n"));
+                    out.push(t);
                 }
             }
         }
